@@ -156,9 +156,10 @@ func mkValue(declared int, v Val) reflect.Value {
 		return reflect.ValueOf(&nject.Debugging{})
 	}
 	if dt.Kind() == reflect.Interface {
-		if v.Tag == 0 {
+		if v.Tag == 0 && (v.Ty == declared || v.Ty < 0 || v.Ty > 7) {
 			return reflect.Zero(dt)
 		}
+		// (a zero value of a concrete type handed on as an interface is not the nil interface)
 		var inner reflect.Value
 		if v.Ty == cError {
 			inner = reflect.ValueOf(&Err{Tag: v.Tag})
